@@ -108,10 +108,42 @@ def all_binders(e):
 
 
 # ------------------------------------------------------------------ the checks
-def load_expr(c):
+def load_expr(c, problems=None):
     if "sympy" in c:  # outside the JSON grammar (Abs / Indexed): rebuilt from srepr
         return eval(c["sympy"], {**vars(sp), "PoolSum": PoolSum})  # noqa: S307
-    return M.build(c["expr"])
+    return M.build(c["expr"], c.get("supplier"), problems)
+
+
+def ev_tree(t, env, env_seed):
+    """the oracle value read off the INPUT description (JSON tree), never touching a PoolSum object"""
+    k = t[0]
+    if k == "S":
+        return env[t[1]] if t[1] in env else sym_value(t[1], env_seed)
+    if k == "N":
+        return Fr(int(t[1]), int(t[2]))
+    if k == "A":
+        return sum((ev_tree(a, env, env_seed) for a in t[1]), Fr(0))
+    if k == "M":
+        r = Fr(1)
+        for a in t[1]:
+            r *= ev_tree(a, env, env_seed)
+        return r
+    if k == "P":
+        b, x = ev_tree(t[1], env, env_seed), ev_tree(t[2], env, env_seed)
+        if x.denominator != 1 or abs(x) > 6 or (b == 0 and x <= 0):
+            raise Undefined(str(t))
+        return b ** int(x)
+    if k == "F":
+        return fun_value(t[1], [ev_tree(a, env, env_seed) for a in t[2]])
+    if k == "PS":
+        idx = [(n, [ev_tree(v, env, env_seed) for v in vals]) for n, vals in t[2]]
+        total = Fr(0)
+        for combo in itertools.product(*[vals for _, vals in idx]):
+            inner = dict(env)
+            inner.update({name: val for (name, _), val in zip(idx, combo)})
+            total += ev_tree(t[1], inner, env_seed)
+        return total
+    raise Undefined(str(k))
 
 
 def ps_depth(e):
@@ -121,12 +153,15 @@ def ps_depth(e):
 
 def run_case(c):
     """-> (list of (signature, what), n_checks) ; raises Undefined when the point is singular"""
-    e = load_expr(c)
+    problems = []
+    e = load_expr(c, problems)
     seed = c["env_seed"]
     env = {}
     fails = []
-    n = 0
-    S = ev(e, env, seed)
+    n = 1
+    for pr in problems[:1]:
+        fails.append(("constructor_pools_wrong", pr))
+    S = ev_tree(c["expr"], env, seed) if "sympy" not in c else ev(e, env, seed)
     top = isinstance(e, PoolSum)
 
     # 1. doit
@@ -205,7 +240,7 @@ def run_case(c):
 
 
 def fixed_cases():
-    i, j, x = sp.symbols("i j x")
+    i, j, k, x = sp.symbols("i j k x")
     f = sp.Function("f")
     out = []
     for e, extra in [
@@ -216,8 +251,22 @@ def fixed_cases():
         (PoolSum(PoolSum(f(i), (i, (1, 2))), (i, (5,))), {"subs": [["i", ["N", "7", "1"]]]}),  # shadowed
         (PoolSum(f(i, j), (i, (1, 2)), (j, (3, 4))), {"subs": [["i", ["N", "5", "1"]], ["j", ["S", "x"]]]}),
         (PoolSum(f(i, j) * x, (i, (1, 2)), (j, (sp.Rational(1, 2),))), {"subs": [["x", ["N", "2", "1"]]]}),
+        # a symbol free at this level and bound in a nested sum
+        (PoolSum(j * PoolSum(x * i + j, (j, (1, 2))), (i, (3, 4))),
+         {"subs": [["j", ["N", "7", "1"]], ["i", ["N", "5", "1"]]], "xmap": [["j", ["S", "x"]]]}),
+        # depth 3: outer index used at depth 2 and re-bound at depth 3
+        (PoolSum(PoolSum((i * j + x) * PoolSum(i * sp.Symbol("y"), (i, (1, 2))), (j, (1, sp.Rational(1, 2)))), (i, (10, 20))),
+         {"subs": [["i", ["N", "3", "1"]], ["j", ["S", "x"]]]}),
+        # sibling sums: the index of one is free in the other
+        (PoolSum(PoolSum(x * j, (j, (1, sp.Rational(1, 2)))) + PoolSum(j * sp.Symbol("k") + 1, (k, (2, 3))), (i, (1, 1))),
+         {"subs": [["j", ["N", "7", "1"]], ["k", ["N", "2", "1"]]]}),
     ]:
         out.append({"kind": "fixed", "expr": M.ser(e), "env_seed": 3, **extra})
+    # the same sum with its pools handed over through every kind of iterable
+    e = PoolSum(x**i + j * i, (i, (0, 1, 2)), (j, (sp.Rational(1, 2), 3)))
+    for sup in sorted(M.SUPPLIERS):
+        out.append({"kind": "fixed", "expr": M.ser(e), "env_seed": 5, "supplier": sup,
+                    "subs": [["x", ["N", "2", "1"]], ["i", ["N", "4", "1"]]]})
     return out
 
 
@@ -231,6 +280,16 @@ def structural_fixed():
         fails.append(("shadowed_index_wrong", f"{sh}.doit() = {sh.doit()}, expected f(1) + f(2)"))
     if sh.evaluate() != PoolSum(f(i), (i, (1, 2))):
         fails.append(("shadowed_index_wrong", f"{sh}.evaluate() = {sh.evaluate()}"))
+    j = sp.Symbol("j")
+    fb = PoolSum(j * PoolSum(x * i + j, (j, (1, 2))), (i, (3, 4)))
+    got = sp.expand(fb.subs(j, 7).doit())
+    if got != 98 * x + 42:
+        fails.append(("subs_free_here_bound_deeper", f"{fb}.subs(j, 7).doit() = {got}, expected 98*x + 42"))
+    for name, sup in M.SUPPLIERS.items():
+        vals = [sp.Integer(0), sp.Integer(1), sp.Integer(2)]
+        node = PoolSum(x**i, (i, sup(vals)))
+        if tuple(node.args[1][1]) != tuple(vals):
+            fails.append(("constructor_pools_wrong", f"PoolSum(x**i, (i, <{name} of 0,1,2>)).indices = {node.args[1:]}"))
     try:
         PoolSum(x, (i, ()))
         fails.append(("empty_pool_accepted", "PoolSum(x, (i, ())) did not raise"))
@@ -243,11 +302,11 @@ def gen_cases(seed, n):
     rng = random.Random(seed * 104729 + 18)
     cases = fixed_cases()
     tries = 0
-    while len(cases) < n + 7 and tries < 30 * n + 100:
+    while len(cases) < n + 20 and tries < 30 * n + 100:
         tries += 1
-        kind = rng.choice(["plain"] * 5 + ["builder"] * 2 + ["wrapped", "absnest"])
+        kind = rng.choice(["plain"] * 4 + ["shadow"] * 3 + ["builder"] * 2 + ["wrapped", "absnest"])
         try:
-            c = {"kind": kind, "env_seed": rng.randint(0, 10**6)}
+            c = {"kind": kind, "env_seed": rng.randint(0, 10**6), "supplier": rng.choice(sorted(M.SUPPLIERS))}
             if kind == "builder":
                 e = M.gen_builder_nest(rng)
                 c["unfold"] = True
@@ -259,6 +318,9 @@ def gen_cases(seed, n):
                             *[(t[0], tuple(t[1])) for t in e.args[1:]])
                 c["unfold"] = True
                 c["sympy"] = sp.srepr(e)
+            elif kind == "shadow":
+                e = M.gen_shadow_nest(rng)
+                c["unfold"] = False
             else:
                 e = M.gen_poolsum(rng, [], M.FREE, rng.randint(1, 3), rng.randint(0, 2), [64])
                 c["unfold"] = rng.random() < 0.5 and ps_depth(e) <= 2
